@@ -58,6 +58,12 @@ type Case struct {
 	Fuse       []FuseRead `json:"fuse,omitempty"`
 
 	Cat []CatOp `json:"cat,omitempty"`
+
+	// FaultErr selects what an injected store failure looks like: 0 plain error, 1 an error that
+	// wraps io.EOF with %w (what net/http returns for a connection closed without an answer),
+	// 2 a github.com/pkg/errors wrap of io.EOF (what StoreRouter/S3/SFTP stores produce),
+	// 3 io.ErrUnexpectedEOF, 4 desync.ChunkMissing, 5 desync.ChunkInvalid
+	FaultErr int `json:"fault_err,omitempty"`
 }
 
 // ---------------------------------------------------------------- blob construction
@@ -330,6 +336,7 @@ func genCase(t *rapid.T) Case {
 	minOps := rapid.SampledFrom([]int{1, 4, 10, 20, 30}).Draw(t, "minops")
 	c.Ops = rapid.SliceOfN(rapid.Custom(func(t *rapid.T) Op { return genOp(t, &l) }), minOps, hx.Pick(40, 80)).Draw(t, "ops")
 
+	c.FaultErr = rapid.SampledFrom([]int{0, 0, 1, 2, 3, 4, 5}).Draw(t, "faulterr")
 	c.Handles = rapid.IntRange(1, 3).Draw(t, "handles")
 	c.Goroutines = rapid.IntRange(1, 4).Draw(t, "goroutines")
 	c.Fuse = rapid.SliceOfN(rapid.Custom(func(t *rapid.T) FuseRead {
